@@ -278,6 +278,24 @@ func (matrix *DenseIntMatrix) AsVector() Vector {
 func (matrix *DenseIntMatrix) storageLocation() uintptr {
   return uintptr(unsafe.Pointer(&matrix.values[0]))
 }
+// True if a is a matrix of the same type that is backed by the same storage.
+func (matrix *DenseIntMatrix) sharesStorage(a ConstMatrix) bool {
+  b, ok := a.(*DenseIntMatrix)
+  return ok && matrix.storageLocation() == b.storageLocation()
+}
+// True if a is a view on exactly the same elements as matrix, i.e. the same
+// storage seen through the same window.
+func (matrix *DenseIntMatrix) sameView(a ConstMatrix) bool {
+  b, ok := a.(*DenseIntMatrix)
+  if !ok {
+    return false
+  }
+  return matrix.storageLocation() == b.storageLocation() &&
+         matrix.rows == b.rows && matrix.cols == b.cols &&
+         matrix.rowOffset == b.rowOffset && matrix.colOffset == b.colOffset &&
+         matrix.rowMax == b.rowMax && matrix.colMax == b.colMax &&
+         matrix.transposed == b.transposed
+}
 /* const interface
  * -------------------------------------------------------------------------- */
 func (matrix *DenseIntMatrix) CloneConstMatrix() ConstMatrix {
